@@ -14,75 +14,100 @@ from .must import branch_atoms
 
 
 def run(chk, unit="asmjit/core/codeholder.cpp", rule="R-WRITE-OFFSET-FAILURE-REPORTED", floor=3):
-    chk.rule(rule, "on the edge where CodeWriterUtils::write_offset() returned false, every path to a return of the calling CodeHolder function "
-                   "assigns a non-kOk status to an Error local or returns make_error(...): bind_label(), resolve_cross_section_fixups() and "
+    chk.rule(rule, "for every use of CodeWriterUtils::write_offset() in CodeHolder (directly, through a unit-local bool helper that returns its "
+                   "result, or through a bool local that holds it): the blocks that are reached only when the result is false contain an "
+                   "assignment of a non-kOk status to an Error local or a failing return: bind_label(), resolve_cross_section_fixups() and "
                    "relocate_to_base() all report a displacement the field cannot hold")
-    f = chk.facts(unit, funcs=r"asmjit::CodeHolder::[A-Za-z_0-9]+$")
+    f = chk.facts(unit, funcs=r"asmjit::CodeHolder::[A-Za-z_0-9]+$|asmjit::[A-Za-z_0-9]+$")
+    fns = [g for g in cfg.load_functions(f) if g.file.endswith(unit.split("/")[-1])]
+    # bool helpers that return the result of write_offset (closure)
+    wrappers = set()
+    for _ in range(3):
+        for g in fns:
+            if (g.raw.get("ret") or "") != "bool" or g.name in wrappers:
+                continue
+            for b, idx, r in g.return_sites():
+                v = g.e(g.strip(g.e(r).get("val"))) if g.e(r).get("val") is not None else None
+                if v is not None and v["k"] in ("call", "mcall") and (v.get("cn") == "write_offset" or v.get("callee") in wrappers):
+                    wrappers.add(g.name)
+
+    def is_wo(x):
+        return x is not None and x["k"] in ("call", "mcall") and (x.get("cn") == "write_offset" or x.get("callee") in wrappers)
     n = 0
-    for fn in cfg.load_functions(f):
-        if not fn.file.endswith(unit.split("/")[-1]):
+    for fn in fns:
+        if fn.name in wrappers:
             continue
-        calls = {i for i, x in fn.calls(lambda x: x.get("cn") == "write_offset")}
+        calls = {i for i, x in fn.ex.items() if is_wo(x)}
         if not calls:
             continue
         atoms = branch_atoms(fn)
         short = fn.name.replace("asmjit::", "")
-        # blocks whose branch atom is (the negation of) a write_offset call
-        tested = {}
-        for b, (atom, pol) in atoms.items():
-            a = fn.strip(atom)
-            if a in calls:
-                tested[b] = (a, pol)
-        for c in sorted(calls):
-            n += 1
-            blk = [b for b, (a, _) in tested.items() if a == c]
-            if not blk:
-                chk.ob(rule, "%s|write_offset@%d" % (short, fn.line_of(c) - fn.line), False, loc=fn.loc(c),
-                       detail="the result of write_offset() is not tested", key="writeoffset|%s" % short)
-                continue
-            b0 = blk[0]
-            pol = tested[b0][1]
+        # bool locals that hold the result
+        carriers = {}
+        for i, x in fn.ex.items():
+            if x["k"] == "binop" and x["op"] == "=" and fn.strip(x["rhs"]) in calls:
+                l = fn.e(fn.strip(x["lhs"]))
+                if l is not None and l["k"] == "ref":
+                    carriers[l["did"]] = fn.strip(x["rhs"])
+            if x["k"] == "decl":
+                for v in x["vars"]:
+                    if v.get("init") is not None and fn.strip(v["init"]) in calls:
+                        carriers[v["did"]] = fn.strip(v["init"])
 
-            def err_assign(x):
+        def err_event(b):
+            for el in fn.blocks[b]["elems"]:
+                x = fn.e(el) if isinstance(el, int) else None
+                if x is None:
+                    continue
                 if x["k"] == "binop" and x["op"] == "=":
                     l = fn.e(fn.strip(x["lhs"]))
                     r = fn.e(fn.strip(x["rhs"]))
                     if l is not None and l["k"] == "ref" and "Error" in (l.get("ty") or "") and r is not None and r.get("cvn") != "kOk":
                         return True
-                return False
-
-            def transfer(b, st):
-                for el in fn.blocks[b]["elems"]:
-                    x = fn.e(el) if isinstance(el, int) else None
-                    if x is not None and err_assign(x):
-                        st = False
-                return st
-
-            def edge(p, si, s, st):
-                if p == b0:
-                    failing = (si == 1) if pol else (si == 0)       # successor 0 = condition true
-                    if failing:
+                if x["k"] == "return" and x.get("val") is not None:
+                    v = fn.e(fn.strip(x["val"]))
+                    if v is not None and v["k"] in ("call", "mcall") and v.get("cn") in ("make_error", "report_error"):
                         return True
-                return st
-            IN, OUT = forward(fn, False, transfer, lambda ss: any(ss), edge=edge)
-            bad = None
-            for b, idx, r in fn.return_sites():
-                st = IN.get(b, False)
-                for el in fn.blocks[b]["elems"][:idx]:
-                    x = fn.e(el) if isinstance(el, int) else None
-                    if x is not None and err_assign(x):
-                        st = False
-                if not st:
+            return False
+        for c in sorted(calls):
+            n += 1
+            tests = []
+            for b, (atom, pol) in atoms.items():
+                a = fn.strip(atom)
+                ax = fn.e(a)
+                if a == c or (ax is not None and ax["k"] == "ref" and carriers.get(ax.get("did")) == c):
+                    tests.append((b, pol))
+            ok, why = False, "its result is never tested"
+            for b, pol in tests:
+                succs = fn.blocks[b]["succs"]
+                if len(succs) != 2 or None in succs:
                     continue
-                val = fn.e(r).get("val")
-                v = fn.e(fn.strip(val)) if val is not None else None
-                if v is not None and v["k"] in ("call", "mcall") and v.get("cn") == "make_error":
-                    continue
-                bad = r
-            chk.ob(rule, "%s|write_offset@%d" % (short, fn.line_of(c) - fn.line), bad is None, loc=fn.loc(c),
-                   detail="when write_offset() refuses the displacement, %s can reach `%s` (line %s) without having recorded an error: the caller "
-                          "is told kOk although a reference was left unpatched (bind_label() reports kInvalidDisplacement in the same situation)" %
-                          (short, " ".join(fn.text(bad).split())[:40] if bad is not None else "", fn.line_of(bad) if bad is not None else ""),
-                   key="writeoffset|%s" % short)
+                t_succ, f_succ = (succs[0], succs[1]) if pol else (succs[1], succs[0])
+                only_false = (set(fn.reachable_from(f_succ)) | {f_succ}) - (set(fn.reachable_from(t_succ)) | {t_succ})
+                # inside a loop both successors reach everything: cut at the loop back edge by looking at the blocks up to the join
+                if not only_false:
+                    seen, work = set(), [f_succ]
+                    t_reach = set()
+                    work_t = [t_succ]
+                    while work_t:
+                        q = work_t.pop()
+                        if q in t_reach or q == b:
+                            continue
+                        t_reach.add(q)
+                        work_t += [s_ for s_ in fn.blocks[q]["succs"] if s_ is not None and s_ != b]
+                    while work:
+                        q = work.pop()
+                        if q in seen or q == b or q in t_reach:
+                            continue
+                        seen.add(q)
+                        work += [s_ for s_ in fn.blocks[q]["succs"] if s_ is not None]
+                    only_false = seen
+                if any(err_event(q) for q in only_false):
+                    ok = True
+                else:
+                    why = "no path that is taken only when it failed records an error"
+            chk.ob(rule, "%s|write_offset@%d" % (short, fn.line_of(c) - fn.line), ok, loc=fn.loc(c),
+                   detail="when the displacement is refused, %s: %s - the caller is told kOk although a reference was left unpatched "
+                          "(bind_label() reports kInvalidDisplacement in the same situation)" % (short, why), key="writeoffset|%s" % short)
     chk.floor(rule + ":calls", n, floor)
     return n
